@@ -139,6 +139,20 @@ def run(tier, seed):
             msg = compare(d2, m2, [1, 2, 3], sorted({v for v in src.values()} | {"new"}, key=repr))
             return msg is None, "copy of MultiKeyDict(%r) after a further assignment: %s" % (src, msg)
         R.guard("multikeydict-construction-is-itemwise-assignment", {"source": repr(src)}, ctor)
+    # scale: a value owning many keys (n = 15..40), one of them assigned again; keys re-created as fresh equal objects (ints above 256)
+    for n_ in (15, 16, 17, 18, 25, 40):
+        for base in (0, 1000):
+            def manykeys():
+                d, mdl = MultiKeyDict(), Model()
+                ks = [base + i for i in range(n_)]
+                for k_ in ks:
+                    d[int(str(k_))] = "x"; mdl.set((k_,), "x")
+                d[int(str(ks[0]))] = "x"; mdl.set((ks[0],), "x")
+                d[int(str(ks[3]))] = "y"; mdl.set((ks[3],), "y")
+                del d[int(str(ks[5]))]; mdl.delete(ks[5])
+                msg = compare(d, mdl, ks, ["x", "y"])
+                return msg is None, "%d keys for one value (from %d): %s" % (n_, base, msg)
+            R.guard("multikeydict-behaves-as-the-grouped-map", {"keys": n_, "base": base, "scale": True}, manykeys)
     # keys that are equal but of another type / big ints / run-time strings
     def eqkeys():
         d = MultiKeyDict()
